@@ -323,20 +323,134 @@ theorem round_totalW_lt (c : Cfg) (rank : Nat → Nat) (hac : Acyclic c rank) (n
   obtain ⟨s, hs, hlt⟩ := round_progress c rank hac n hclosed okf σ hi hidle hnd
   exact sum_map_lt (fun x _ => round_weight_le c okf n σ hi x) ⟨s, List.mem_range.mpr hs, hlt⟩
 
-/-- the fair driver is a particular interleaving: its result is `run` of an action list -/
-theorem rounds_is_run (c : Cfg) (okf : Nat → Bool) (n : Nat) : ∀ k σ, ∃ as, rounds c okf n k σ = run c σ as := by
+/-! ### the end of a fair run -/
+
+/-- goroutine steps touch `g s` only when stage `s` is inside `Run` or between its two writes -/
+theorem finish_g_settled (c : Cfg) (okf : Nat → Bool) (σ : St) (t s : Nat)
+    (h1 : σ.g s ≠ .inRun) (h2 : σ.g s ≠ .afterErr) :
+    (run c σ (finishActs okf t)).g s = σ.g s := by
+  simp only [finishActs, run, List.foldl_cons, List.foldl_nil, step]
+  repeat' split
+  all_goals (by_cases hst : s = t <;> simp_all [upd_apply])
+
+/-- after its two goroutine steps a stage is neither inside `Run` nor between its two writes -/
+theorem finish_settles (c : Cfg) (okf : Nat → Bool) (σ : St) (s : Nat) :
+    (run c σ (finishActs okf s)).g s ≠ .inRun ∧ (run c σ (finishActs okf s)).g s ≠ .afterErr := by
+  simp only [finishActs, run, List.foldl_cons, List.foldl_nil, step]
+  repeat' split
+  all_goals simp_all [upd_apply]
+
+/-- goroutine steps never make a stage waiting or running -/
+theorem finish_status (c : Cfg) (okf : Nat → Bool) (σ : St) (t s : Nat) :
+    ((run c σ (finishActs okf t)).status s = .waiting → σ.status s = .waiting) ∧
+    ((run c σ (finishActs okf t)).status s = .running → σ.status s = .running) := by
+  simp only [finishActs, run, List.foldl_cons, List.foldl_nil, step]
+  repeat' split
+  all_goals (by_cases hst : s = t <;> simp_all [upd_apply])
+
+theorem drain_settles (c : Cfg) (okf : Nat → Bool) (L : List Nat) : ∀ σ,
+    (∀ s, (s ∈ L ∨ (σ.g s ≠ .inRun ∧ σ.g s ≠ .afterErr)) →
+      (run c σ (L.flatMap (finishActs okf))).g s ≠ .inRun ∧
+      (run c σ (L.flatMap (finishActs okf))).g s ≠ .afterErr) ∧
+    (∀ s, ((run c σ (L.flatMap (finishActs okf))).status s = .waiting → σ.status s = .waiting) ∧
+      ((run c σ (L.flatMap (finishActs okf))).status s = .running → σ.status s = .running)) := by
+  induction L with
+  | nil => intro σ; exact ⟨fun s h => by rcases h with h | h; cases h; exact h, fun s => ⟨id, id⟩⟩
+  | cons t rest ih =>
+    intro σ
+    simp only [List.flatMap_cons, run_append]
+    obtain ⟨ih1, ih2⟩ := ih (run c σ (finishActs okf t))
+    refine ⟨fun s h => ?_, fun s => ?_⟩
+    · apply ih1 s
+      by_cases hst : s = t
+      · subst hst; exact .inr (finish_settles c okf σ s)
+      · rcases h with h | h
+        · rcases List.mem_cons.mp h with h | h
+          · exact absurd h hst
+          · exact .inl h
+        · right
+          rw [finish_g_settled c okf σ t s h.1 h.2]; exact h
+    · have h := finish_status c okf σ t s
+      exact ⟨fun h1 => h.1 ((ih2 s).1 h1), fun h1 => h.2 ((ih2 s).2 h1)⟩
+
+/-- only `cancel` and a condition that cannot be evaluated set the cancelled flag -/
+def Act.isCancel : Act → Bool
+  | .cancel => true
+  | _ => false
+
+theorem cancelled_step (c : Cfg) (σ : St) (a : Act) (hne : ∀ s, c.cond s ≠ .err)
+    (ha : a.isCancel = false) : (step c σ a).cancelled = σ.cancelled := by
+  cases a with
+  | cancel => simp [Act.isCancel] at ha
+  | visit s =>
+    have := hne s
+    simp only [step]
+    repeat' split
+    all_goals simp_all
+  | read => simp only [step]; repeat' split
+            all_goals rfl
+  | decide => simp only [step]; repeat' split
+              all_goals rfl
+  | ret s ok => simp only [step]; repeat' split
+                all_goals rfl
+  | post s => simp only [step]; repeat' split
+              all_goals rfl
+
+theorem cancelled_run (c : Cfg) (hne : ∀ s, c.cond s ≠ .err) (as : List Act) : ∀ σ,
+    (∀ a ∈ as, a.isCancel = false) → (run c σ as).cancelled = σ.cancelled := by
+  induction as with
+  | nil => intro σ _; rfl
+  | cons a as ih =>
+    intro σ h
+    rw [run_cons, ih _ (fun a' ha' => h a' (List.mem_cons_of_mem _ ha')),
+      cancelled_step c σ a hne (h a List.mem_cons_self)]
+
+theorem drainActs_props (okf : Nat → Bool) (n : Nat) :
+    ∀ a ∈ drainActs okf n, Respects okf a ∧ a.isCancel = false := by
+  intro a ha
+  simp only [drainActs, List.mem_flatMap, finishActs, List.mem_cons, List.not_mem_nil, or_false] at ha
+  obtain ⟨s, _, rfl | rfl⟩ := ha <;> simp [Respects, Act.isCancel]
+
+theorem visitActs_props (c : Cfg) (okf : Nat → Bool) (L : List Nat) :
+    ∀ a ∈ L.flatMap (visitActs c), Respects okf a ∧ a.isCancel = false := by
+  intro a ha
+  rw [List.mem_flatMap] at ha
+  obtain ⟨t, _, h⟩ := ha
+  simp only [visitActs, List.mem_cons, List.mem_append, List.mem_replicate, List.not_mem_nil,
+    or_false] at h
+  rcases h with rfl | ⟨_, rfl⟩ | rfl <;> simp [Respects, Act.isCancel]
+
+/-- the fair driver is a particular interleaving: its result is `run` of an action list that respects
+the outcomes and contains no external cancel -/
+theorem rounds_is_run (c : Cfg) (okf : Nat → Bool) (n : Nat) : ∀ k σ, ∃ as,
+    rounds c okf n k σ = run c σ as ∧ ∀ a ∈ as, Respects okf a ∧ a.isCancel = false := by
   intro k
   induction k with
-  | zero => intro σ; exact ⟨[], rfl⟩
+  | zero => intro σ; exact ⟨[], rfl, fun a h => (nomatch h)⟩
   | succ k ih =>
     intro σ
     simp only [rounds]
     split
-    · exact ⟨[], rfl⟩
-    · obtain ⟨as, h⟩ := ih (round c okf n σ)
-      refine ⟨drainActs okf n ++ (List.range n).flatMap (visitActs c) ++ as, ?_⟩
-      rw [h, run_append, run_append]
-      unfold round
-      rw [(pass_only_loop_actions' c _ _).1]
+    · exact ⟨[], rfl, fun a h => (nomatch h)⟩
+    · obtain ⟨as, h, hp⟩ := ih (round c okf n σ)
+      refine ⟨drainActs okf n ++ (List.range n).flatMap (visitActs c) ++ as, ?_, ?_⟩
+      · rw [h, run_append, run_append]
+        unfold round
+        rw [(pass_only_loop_actions' c _ _).1]
+      · intro a ha
+        rcases List.mem_append.mp ha with ha | ha
+        · rcases List.mem_append.mp ha with ha | ha
+          · exact drainActs_props okf n a ha
+          · exact visitActs_props c okf _ a ha
+        · exact hp a ha
+
+theorem isDone_settled (n : Nat) (σ : St) (h : isDone n σ = true) :
+    ∀ s, s < n → σ.status s ≠ .waiting ∧ σ.status s ≠ .running := by
+  intro s hs
+  unfold isDone at h
+  rw [List.all_eq_true] at h
+  have := h s (List.mem_range.mpr hs)
+  simp only [Bool.and_eq_true, bne_iff_ne, ne_eq] at this
+  exact this
 
 end Sched
